@@ -3,12 +3,15 @@
    ALWAYS undo it (git checkout -- .) and report which checks raised a VIOLATION."""
 import json, os, subprocess, sys, time
 patch = os.path.abspath(sys.argv[1]); props = sys.argv[2:]
+# MUT_REPO: a scratch worktree of /repo at the same commit (used while /repo itself is busy with a long background run);
+# the checks then build from it through VERIF_REPO. Default is /repo itself.
+REPO = os.environ.get("MUT_REPO", "/repo")
 def sh(cmd, **kw):
     return subprocess.run(cmd, shell=True, stdout=subprocess.PIPE, stderr=subprocess.STDOUT, text=True, **kw)
-st = sh("git -C /repo status --porcelain --untracked-files=no").stdout.strip()
+st = sh("git -C " + REPO + " status --porcelain --untracked-files=no").stdout.strip()
 if st:
-    print("refusing: /repo has local modifications:\n" + st); sys.exit(2)
-r = sh("git -C /repo apply " + patch)
+    print("refusing: " + REPO + " has local modifications:\n" + st); sys.exit(2)
+r = sh("git -C " + REPO + " apply " + patch)
 if r.returncode != 0:
     print("patch does not apply:", r.stdout); sys.exit(2)
 out = {}
@@ -16,10 +19,10 @@ try:
     for p in props:
         t = time.time()
         tier = os.environ.get("MUT_TIER", "quick")
-        r = sh("python3 /verif/bin/check %s --tier %s" % (p, tier), cwd="/verif", env=dict(os.environ, VERIF_EVIDENCE_SUFFIX=".mutant"))
+        r = sh("python3 /verif/bin/check %s --tier %s" % (p, tier), cwd="/verif", env=dict(os.environ, VERIF_EVIDENCE_SUFFIX=".mutant", VERIF_REPO=REPO))
         keys = [l.split("key=")[-1] for l in r.stdout.splitlines() if l.startswith("VIOLATION")]
         inc = [l for l in r.stdout.splitlines() if l.startswith("INCONCLUSIVE")]
         out[p] = {"exit": r.returncode, "violation_keys": keys[:8], "inconclusive": inc[:3], "wall": round(time.time() - t, 1)}
 finally:
-    sh("git -C /repo checkout -- .")
+    sh("git -C " + REPO + " checkout -- .")
 print(json.dumps(out, indent=1))
